@@ -27,14 +27,18 @@ fn sources(lens: &[u64], bads: &[(u64, u64, u64)]) -> Result<Vec<TrainDataGenera
     for (k, &n) in lens.iter().enumerate() {
         let tag: String = bads.iter().filter(|b| b.0 == k as u64).map(|b| format!("-{}_{}", b.1, b.2)).collect();
         let path = format!("{dir}/src-{k}-{n}{tag}.jsonl");
+        // an entry (source, mode, 0): the file of that source does not end with a line feed (mode 0), or ends with a
+        // blank instead of a line feed (mode 1)
+        let unterminated = bads.iter().find(|b| b.0 == k as u64 && b.2 == 0).map(|b| b.1);
         if !std::path::Path::new(&path).exists() {
             let mut f = std::fs::File::create(&path).map_err(|e| e.to_string())?;
             for i in 0..n {
-                if is_bad(bads, k as u64, i) {
-                    writeln!(f, "bad {k}-{i}").map_err(|e| e.to_string())?;
-                } else {
-                    writeln!(f, "{{\"input\": \"{k}-{i}\"}}").map_err(|e| e.to_string())?;
-                }
+                let line = if is_bad(bads, k as u64, i) { format!("bad {k}-{i}") } else { format!("{{\"input\": \"{k}-{i}\"}}") };
+                let end = match unterminated {
+                    Some(m) if i + 1 == n => if m == 1 { " " } else { "" },
+                    _ => "\n",
+                };
+                write!(f, "{line}{end}").map_err(|e| e.to_string())?;
             }
         }
         v.push(train_data_generator_from_jsonl(&path).map_err(|e| e.to_string())?);
@@ -66,8 +70,9 @@ fn drain(lens: &[u64], bads: &[(u64, u64, u64)], s: GenerationStrategy, seed: u6
             Ok(item) => (item.verif_input().to_string(), false),
             Err(e) => {
                 let m = format!("{e:#}");
-                let line = m.split("bad ").nth(1).ok_or(format!("unexpected error item: {m}"))?;
-                (line.split(|c: char| c == ':' || c.is_whitespace()).next().unwrap_or("").to_string(), true)
+                // "bad <src>-<i>", or a JSON line that lost its last byte (a file without a final line feed)
+                let line = m.split("bad ").nth(1).or_else(|| m.split("\"input\": \"").nth(1)).ok_or(format!("unexpected error item: {m}"))?;
+                (line.split(|c: char| c == ':' || c == '"' || c.is_whitespace()).next().unwrap_or("").to_string(), true)
             }
         };
         let k: u64 = input.split('-').nth(1).and_then(|x| x.parse().ok()).ok_or("bad item")?;
@@ -131,7 +136,9 @@ pub fn exec(op: &str, a: &[u64]) -> Result<Outcome, String> {
     let mut seen = vec![0u64; lens.len()];
     for (k, src, input, is_err) in &out {
         let sidx = *src as usize;
-        o.check(*is_err == is_bad(&bads, *src, *k), "an unparseable line is not yielded as an error item (or a valid line is)");
+        // (the last line of a file without a final line feed may come as an error item: the line reader drops its last byte)
+        let last_unterminated = bads.iter().any(|b| b.0 == *src && b.2 == 0 && b.1 == 0) && *k + 1 == lens[sidx.min(lens.len() - 1)];
+        o.check(last_unterminated || *is_err == is_bad(&bads, *src, *k), "an unparseable line is not yielded as an error item (or a valid line is)");
         o.check(sidx < lens.len() && *input == format!("{src}-{k}"), "item tagged with a wrong source index");
         if sidx < lens.len() {
             o.check(*k == seen[sidx], "per-source order violated / item repeated");
@@ -248,6 +255,16 @@ pub fn run_c07(ctx: &mut Ctx) {
                         _ => ctx.rng.random_range(0..=l - run),
                     };
                     bads.push((k as u64, start, run));
+                }
+            }
+            emit_b(ctx, s, &lens, seed, &bads);
+        } else if i % 4 == 2 {
+            // files that do not end with a line feed (plain, or with a blank in its place), also single-record files
+            let lens: Vec<u64> = lens.iter().map(|&l| if ctx.rng.random_bool(0.3) { 1 } else { l }).collect();
+            let mut bads = vec![];
+            for (k, &l) in lens.iter().enumerate() {
+                if l > 0 && (bads.is_empty() || ctx.rng.random_bool(0.5)) {
+                    bads.push((k as u64, ctx.rng.random_range(0..2u64), 0));
                 }
             }
             emit_b(ctx, s, &lens, seed, &bads);
